@@ -292,7 +292,12 @@ def target_dir():
 
 def run_kani_group(ws, group, harnesses, jobs, timeout, logfile=None):
     env = dict(ENV, CARGO_TARGET_DIR=target_dir())
+
     cmd = kani_cmd(group, harnesses, jobs, ["-j", str(jobs), "--output-format", "terse", "--exact"])
+    # address-space cap per process (DESIGN 3.5): a runaway solver ends as UNDECIDED, not as an
+    # out-of-memory kill of its neighbours
+    if shutil.which("prlimit"):
+        cmd = ["prlimit", "--as=%d" % (int(group.get("mem_gb", 20)) * 1024 ** 3)] + cmd
     rc, out, wall = run(cmd, cwd=ws, timeout=timeout, env=env, logfile=logfile)
     return cmd, rc, out, wall
 
